@@ -119,4 +119,6 @@ def report_calls(rep, tier, seed, prefixes, what, jit_too=False):
                  "(algorithm, parameters, input box); non-trivial = at least one non-instantiated variable and the "
                  "call pruned, failed or answered entailed. Each record = one state of spec/CallTrace.tla; every clause "
                  "is evaluated by TLC with brute-force supports.",
-            exhaustive=(tier == "thorough"))
+            exhaustive=all(v >= 1.0 for v in plan(tier).values()))
+    rep.cov["families_run_completely"] = sorted(k for k, v in plan(tier).items() if v >= 1.0)[:200]
+    rep.cov["families_sampled"] = {k: round(v, 4) for k, v in plan(tier).items() if v < 1.0}
